@@ -169,7 +169,7 @@ def main():
         rs, res = gen.run_builder(c, "c04_" + name, workers=8, timeout=1500, cap=cap, rnd=rnd)
         gres.append(res)
         progs += [streams.with_vars(streams.finalize(p), c) for p in rs]
-    rp, rres = streams.c02_programs(tier, seed, rnd, caps=(3000, 100) if q else (8000, 1500))      # (the thorough tier of this check once needed 7 GB: budgets halved)
+    rp, rres = streams.c02_programs(tier, seed, rnd, caps=(3000, 100) if q else (2000, 500))      # (the thorough tier of this check once needed 7 GB: budgets cut)
     progs += rp
     for r in gres + rres:
         chk.add_tlc(r)
